@@ -42,49 +42,70 @@ def fresh_modules():
     T._TRACERS.clear()
 
 
+def one_seed(args):
+    sd, base, k = args
+    os.environ["VFS_FACTS_TARGET"] = V + "/.cache/target-scratch" + ("-%d" % k if k else "")
+    name = os.path.basename(sd)
+    pid = name.split("-")[0]
+    w = tempfile.mkdtemp(prefix="seedrun.")
+    try:
+        r = os.path.join(w, "r")
+        subprocess.run(["rsync", "-a", "--exclude", "target", "--exclude", ".git", "/repo/", r + "/"], check=True)
+        p = subprocess.run(["git", "apply", os.path.join(sd, "patch.diff")], cwd=r, capture_output=True, text=True)
+        if p.returncode != 0:
+            return name, {"error": "patch does not apply: " + p.stderr[-200:]}, "%-8s PATCH DOES NOT APPLY" % name
+        try:
+            fpath = check.extract(r, "all")
+        except Exception as e:
+            return name, {"error": "extraction failed: %s" % e}, "%-8s EXTRACTION FAILED" % name
+        facts = Facts(fpath)
+        got = run_all(facts, r)
+        fresh_modules()
+        new = {p_: sorted(k_ for k_ in ks if k_ not in base[p_]) for p_, ks in got.items()}
+        new = {p_: ks for p_, ks in new.items() if ks}
+        own = bool(new.get(pid))
+        return name, {"property": pid, "caught_by_own_check": own, "caught_by": sorted(new), "new_violations": new}, \
+            "%-8s own=%-5s caught_by=%s" % (name, own, ",".join(sorted(new)) or "-")
+    finally:
+        shutil.rmtree(w, ignore_errors=True)
+
+
+def _worker(args):
+    import multiprocessing
+    ident = multiprocessing.current_process()._identity
+    return one_seed((args[0], args[1], ident[0] if ident else 0))
+
+
 def main():
-    rx = re.compile(sys.argv[1]) if len(sys.argv) > 1 else None
+    argv = [a for a in sys.argv[1:]]
+    jobs = 1
+    if "-j" in argv:
+        i_ = argv.index("-j")
+        jobs = int(argv[i_ + 1])
+        del argv[i_:i_ + 2]
+    rx = re.compile(argv[0]) if argv else None
     base_facts = Facts(check.extract("/repo", "all"))
     base = run_all(base_facts, "/repo")
     fresh_modules()
-    os.environ["VFS_FACTS_TARGET"] = V + "/.cache/target-scratch"
     results = {}
-    seeds = sorted(glob.glob(V + "/seeded/C*-m*"))
-    for sd in seeds:
-        name = os.path.basename(sd)
-        if rx and not rx.search(name):
-            continue
-        pid = name.split("-")[0]
-        w = tempfile.mkdtemp(prefix="seedrun.")
-        try:
-            r = os.path.join(w, "r")
-            subprocess.run(["rsync", "-a", "--exclude", "target", "--exclude", ".git", "/repo/", r + "/"], check=True)
-            p = subprocess.run(["git", "apply", os.path.join(sd, "patch.diff")], cwd=r, capture_output=True, text=True)
-            if p.returncode != 0:
-                results[name] = {"error": "patch does not apply: " + p.stderr[-200:]}
-                print("%-8s PATCH DOES NOT APPLY" % name)
-                continue
-            try:
-                fpath = check.extract(r, "all")
-            except Exception as e:
-                results[name] = {"error": "extraction failed: %s" % e}
-                print("%-8s EXTRACTION FAILED" % name)
-                continue
-            facts = Facts(fpath)
-            got = run_all(facts, r)
-            fresh_modules()
-            new = {p_: sorted(k for k in ks if k not in base[p_]) for p_, ks in got.items()}
-            new = {p_: ks for p_, ks in new.items() if ks}
-            own = bool(new.get(pid))
-            results[name] = {"property": pid, "caught_by_own_check": own, "caught_by": sorted(new), "new_violations": new}
-            print("%-8s own=%-5s caught_by=%s" % (name, own, ",".join(sorted(new)) or "-"))
-        finally:
-            shutil.rmtree(w, ignore_errors=True)
+    seeds = [sd for sd in sorted(glob.glob(V + "/seeded/C*-m*")) if not rx or rx.search(os.path.basename(sd))]
+    if jobs > 1:
+        import multiprocessing
+        with multiprocessing.Pool(jobs) as pool:
+            for name, res, line in pool.imap_unordered(_worker, [(sd, base) for sd in seeds]):
+                results[name] = res
+                print(line, flush=True)
+    else:
+        for sd in seeds:
+            name, res, line = one_seed((sd, base, 0))
+            results[name] = res
+            print(line, flush=True)
     out = os.path.join(V, "seeded", "RESULTS.json")
     old = {}
     if rx and os.path.exists(out):
         old = json.load(open(out)).get("seeds", {})
     old.update(results)
+    old = {k_: old[k_] for k_ in sorted(old) if os.path.isdir(os.path.join(V, "seeded", k_))}
     json.dump({"checks_implemented": PROPS, "seeds": old}, open(out, "w"), indent=1)
     tot = len(old)
     own = sum(1 for r in old.values() if r.get("caught_by_own_check"))
